@@ -26,12 +26,13 @@ type FuncWork struct {
 	ExpNs   int64   `json:"exp_ns"`   // default expiry of the cache behind Before/Once (<=0: never)
 	GapsNs  []int64 `json:"gaps_ns"`  // simulated sleep before call i
 	LatNs   int64   `json:"lat_ns"`   // simulated latency of the callback (callback_slow)
+	Base    int     `json:"base"`     // execution k of the callback returns Base+k: 0 makes the first result the zero value
 }
 
 func (w *FuncWork) Sim() SimSpec { return w.P }
 
 func (w *FuncWork) Key() string {
-	return fmt.Sprintf("c18/%s/n=%d/calls=%d/pat=%d/d=%d/exp=%d/gaps=%v/lat=%d/tf=%v", w.Kind, w.N, w.Calls, w.Pattern, w.DelayNs, w.ExpNs, w.GapsNs, w.LatNs, w.P.TimeFaults)
+	return fmt.Sprintf("c18/%s/n=%d/calls=%d/pat=%d/d=%d/exp=%d/gaps=%v/lat=%d/tf=%v", w.Kind, w.N, w.Calls, w.Pattern, w.DelayNs, w.ExpNs, w.GapsNs, w.LatNs, w.P.TimeFaults) + fmt.Sprintf("/base=%d", w.Base)
 }
 
 func (w *FuncWork) ShapeName() string {
@@ -78,7 +79,7 @@ func (w *FuncWork) Exec(x *Exec) {
 			if w.LatNs > 0 {
 				simrt.Sleep(time.Duration(w.LatNs))
 			}
-			e.Val = 1000 + len(h.Execs)
+			e.Val = w.Base + len(h.Execs)
 			e.End = x.S.Now()
 			h.Execs = append(h.Execs, e)
 			return e.Val
@@ -417,6 +418,10 @@ func genC18(r *simrt.Rand, tier string, idx uint64) Workload {
 	if r.Bool(0.3) {
 		w.LatNs = []int64{1, 3 * ms, 25 * ms}[r.Intn(3)]
 	}
+	// what the callback returns: unique per execution; sometimes starting at the zero value of the
+	// result type (a wrapper must not mistake a cached zero result for "nothing cached"), or
+	// passing through it at the second or third execution
+	w.Base = []int{1000, 1000, 1000, 0, 0, -1, -2, 1}[r.Intn(8)]
 	// gaps between the calls: around the lifetime of the cache entry
 	if w.Kind == "before" || w.Kind == "once" {
 		for i := 0; i < w.Calls; i++ {
